@@ -25,8 +25,10 @@ FileNames == {[kind |-> "none", text |-> "", v |-> Unset],
 Dirs == {"proj", "My.Proj", "_weird", "---", "W1-b", ".-proj", "@_scope", "a.-b"}
 Seqs(S, lo, hi) == UNION {[1..k -> S] : k \in lo..hi}
 
-\* outside the enforced domain (see DESIGN 9.1): a later file whose name normalises to empty while an earlier one sets a name
-InDomain(fs) == \A i \in 1..Len(fs) : (fs[i].v.set /\ Normalize(fs[i].v.v) = "") => \A j \in 1..(i - 1) : ~fs[j].v.set
+\* a later file whose name normalises to empty while an earlier one sets a name is in the domain: the last file that sets a
+\* name decides, and an empty result falls through to the directory (only a name that *interpolates* to nothing would be
+\* outside it - the code picks the last textual name - and no such name is in FileNames)
+InDomain(fs) == TRUE
 
 VARIABLE pt
 Init == \E e \in Explicits : pt = [seed |-> e]
